@@ -31,7 +31,7 @@ var (
 	funcNames = []string{"foo", "bar", "baz", "qux", "f", "g", "h", "zähle"}
 	pkgNames  = []string{"fmt", "strings", "os", "pkg"}
 	selNames  = []string{"Println", "Sprintf", "Do", "Get", "Name", "Len", "Close"}
-	typeNames = []string{"int", "string", "T", "error", "bool", "byte"}
+	typeNames = []string{"int", "string", "T", "error", "bool", "byte", "any", "interface{}"}
 	binOps    = []string{"+", "-", "*", "/", "==", "!=", "<", ">", "&&", "||", "%", "<<", "&"}
 )
 
@@ -1268,7 +1268,8 @@ func (g *gen) structMutate(t string) string {
 		// the same value spelled differently: equal for the compiler, not syntactically identical
 		type re2 struct{ from, to string }
 		for _, r := range []re2{{"\"x\"", "`x`"}, {"\"hello\"", "`hello`"}, {"\"a b\"", "\"a\\x20b\""}, {"`raw`", "\"raw\""}, {"\"s\"", "`s`"},
-			{"0x1f", "31"}, {"1e3", "1000.0"}, {"'c'", "'\\x63'"}, {"1.5", "1.50"}, {"\"%d\"", "`%d`"}, {"\"\"", "``"}} {
+			{"0x1f", "31"}, {"1e3", "1000.0"}, {"'c'", "'\\x63'"}, {"1.5", "1.50"}, {"\"%d\"", "`%d`"}, {"\"\"", "``"},
+			{"interface{}", "any"}, {"any)", "interface{})"}, {"[]any", "[]interface{}"}} {
 			if strings.Contains(t, r.from) {
 				return strings.Replace(t, r.from, r.to, 1)
 			}
@@ -1371,6 +1372,23 @@ func (g *gen) nearCopy(t string) string {
 	return t + "2"
 }
 
+// useOfImport is a declaration that refers to an import by its local name: in a value, or only in a type of a signature,
+// also of a function literal or declaration with a parameter named like the package.
+func (g *gen) useOfImport(name string) string {
+	switch g.r.Intn(8) {
+	case 0:
+		return "var _ = func(" + name + " *" + name + ".T) {}\n\n"
+	case 1:
+		return "func use" + name + "(" + name + " " + name + ".T) {}\n\n"
+	case 2:
+		return "var _ = func() (" + name + " " + name + ".T) { return }\n\n"
+	case 3:
+		return "type t" + name + " struct{ " + name + " " + name + ".T }\n\n"
+	default:
+		return "var _ = " + name + "." + g.pick("Value", "New()", "T{}") + "\n\n"
+	}
+}
+
 // embed places fragments into a file.
 func (g *gen) fileWith(p *pattern, frags []string, pkg string, imports []string) string {
 	var sb strings.Builder
@@ -1413,7 +1431,7 @@ func (g *gen) fileWith(p *pattern, frags []string, pkg string, imports []string)
 			name = baseOf(strings.Trim(spec, `"`))
 		}
 		if name != "_" && name != "." && name != "" && !strings.HasPrefix(name, "impname") {
-			sb.WriteString("var _ = " + name + "." + g.pick("Value", "New()", "T{}") + "\n\n")
+			sb.WriteString(g.useOfImport(name))
 			break
 		}
 	}
@@ -1473,6 +1491,10 @@ func (g *gen) fileWith(p *pattern, frags []string, pkg string, imports []string)
 		case kStmts:
 			pre := g.block(1, 2)
 			post := g.block(1, 2)
+			if g.chance(0.08) && !strings.HasPrefix(strings.TrimSpace(fr), "...") {
+				// the instance's first statement carries a label: a labelled statement is another statement
+				fr = fmt.Sprintf("lbl%d:\n%s", fi, fr)
+			}
 			if g.chance(0.3) {
 				// a decoy in front: the first statement of a differently filled instance, so that the
 				// first section of the pattern matches early and the rest of the pattern does not
@@ -1537,7 +1559,7 @@ func (g *gen) fileWith(p *pattern, frags []string, pkg string, imports []string)
 			name = baseOf(strings.Trim(spec, `"`))
 		}
 		if name != "_" && name != "." && name != "" && !strings.HasPrefix(name, "impname") {
-			sb.WriteString("var _ = " + name + "." + g.pick("Value", "New()", "T{}") + "\n\n")
+			sb.WriteString(g.useOfImport(name))
 		}
 	}
 	if len(imports) > 0 && g.chance(0.35) {
